@@ -486,8 +486,9 @@ class LiveRun:
         return "t?"
 
     def step(self, ev, **a):
-        rec = {"ev": ev, "a": a, "trans": self.trans, "reqs": self.reqs, "st": self.proj()}
+        rec = {"ev": ev, "a": a, "trans": self.trans, "reqs": self.reqs, "st": self.proj(), "ttrans": getattr(self, "ttrans", [])}
         self.trans, self.reqs = [], []
+        self.ttrans = []
         self.steps.append(rec)
         return rec
 
@@ -506,6 +507,16 @@ class LiveRun:
                 run.trans.append([lab, STATUS_NAME[prev], STATUS_NAME[status], sys._getframe(2).f_code.co_name, 0])
             return _update_status
         self.patches.wrap(BaseOrder, "_update_status", mk_us)
+
+        def mk_ts(orig):
+            def _update_status(self_, status):
+                prev = self_.status
+                orig(self_, status)
+                if not hasattr(run, "ttrans"):
+                    run.ttrans = []
+                run.ttrans.append([run.label_trade(self_), getattr(prev, "name", str(prev)), getattr(status, "name", str(status))])
+            return _update_status
+        self.patches.wrap(Trade, "_update_status", mk_ts)
 
         def mk_repl(orig):
             def create_order_replacement(self_, order, new_price, size, dtc):
